@@ -1568,7 +1568,7 @@ func confirmBySchedule(tp targetPkg, ov map[string][]byte, ce *CounterExample, v
 		// the pause helper lives in the same package: only the occ-th visit of the line sleeps
 		helper := filepath.Join(filepath.Dir(file), "zz_verif_pausepoints.go")
 		if _, done := ov2[helper]; !done {
-			ov2[helper] = []byte("package " + pkgName + "\n\nimport (\n\t\"sync/atomic\"\n\t\"time\"\n)\n\nvar verifPauseCounters [64]int64\n\nfunc verifPauseHere(i int, occ int64) {\n\tif atomic.AddInt64(&verifPauseCounters[i], 1) == occ {\n\t\ttime.Sleep(400 * time.Millisecond)\n\t}\n}\n")
+			ov2[helper] = []byte("package " + pkgName + "\n\nimport (\n\t\"sync/atomic\"\n\t\"time\"\n)\n\nvar verifPauseCounters [64]int64\n\nfunc verifPauseHere(i int, occ int64) {\n\tif atomic.AddInt64(&verifPauseCounters[i], 1) == occ {\n\t\ttime.Sleep(1500 * time.Millisecond)\n\t}\n}\n")
 		}
 	}
 	rp := newReplayer(ov2)
